@@ -3,6 +3,7 @@ import Driver.EngineCmd
 import Driver.FmtCmd
 import Driver.NcchCmd
 import Driver.CiaCmd
+import Driver.SaveCmd
 open Pyctr
 
 /-- `(fileops NODE (OP …))` → one rendered output per op, then the bottom buffers -/
@@ -38,6 +39,7 @@ def handle (line : String) : String :=
     | "romfs-parse" | "romfs-lookup" | "romfs-rep" => handleRomfs cmd args
     | "tmd-load" | "tmd-roundtrip" | "tmd-ser" => handleTmd cmd args
     | "exefs-parse" | "exefs-build" | "exefs-norm" | "exefs-lookup" => handleExefs cmd args
+    | "save-run" | "cmac" => handleSave cmd args
     | "ping" => "pong"
     | _ => "bad-cmd"
   | _ => "bad-line"
